@@ -60,7 +60,7 @@ def channel(case):
         return "auth"
     if op in ("legacy", "legacyw", "legacynf"):
         return "ctrl"
-    if op in ("prov", "provhttp", "provnc", "fednew"):
+    if op in ("prov", "provhttp", "provnc", "fednew", "provseq", "provhttpseq"):
         return "fed"
     return "ks"
 
@@ -254,10 +254,16 @@ def _gen_request(rng, remote, home, placements=None):
         else rng.choice(["GET", "GET", "POST", "PUT", "PATCH", "DELETE", "HEAD"])
     # Authorization
     A = "-"
+    # an Authorization value is <scheme> SP <everything else>: sometimes the token is followed by
+    # further text, or the separator is not a single space
+    tail = rng.choice(["", "", "", "", "", "", " junk", " ;q=1", ", Bearer abc", " ", "\t"])
+    sep = rng.choice([" ", " ", " ", " ", " ", " ", " ", " ", "  ", "\t"])
     if "oauth2" in toks:
-        A = "p." + hxc("OAuth2 " + toks["oauth2"])
+        A = "p." + hxc("OAuth2" + sep + toks["oauth2"] + tail)
+        toks["oauth2"] = (sep[1:] + toks["oauth2"] + tail) if sep[0] == " " else None
     elif "bearer" in toks:
-        A = "p." + hxc("Bearer " + toks["bearer"])
+        A = "p." + hxc("Bearer" + sep + toks["bearer"] + tail)
+        toks["bearer"] = (sep[1:] + toks["bearer"] + tail) if sep[0] == " " else None
     elif "basic" in toks:
         A = f"b.{hxc(rng.choice(['', 'none', 'user']))}.{hxc(toks['basic'])}"
     elif rng.random() < 0.15:
@@ -306,7 +312,7 @@ def _gen_request(rng, remote, home, placements=None):
     # database rows
     rows = []
     for t in dict.fromkeys(toks.values()):
-        if t.startswith("v2/") or rng.random() < 0.35:
+        if t is None or t.startswith("v2/") or rng.random() < 0.35:
             continue
         r = rng.random()
         user = (home if r < 0.7 else remote if r < 0.9 else _cluster(rng)) + "-tpzed-" + _rs(rng, B36, 15)
@@ -357,6 +363,20 @@ def generate(rng, tier):
         toks = [_token(rng, remote, home, weird=False) for _ in range(rng.choice([0, 1, 1, 2, 3]))]
         spec = ";".join(f"{hxc(t)}:{_lookup(rng, t, remote, home)}" for t in toks) or "-"
         cases.append(f"provhttp {hx(remote)} {spec}")
+    for _ in range(100 * scale):
+        # one incoming request (one credentials object) forwarded to 2-4 remotes in sequence, some
+        # remotes repeated
+        remotes = [_cluster(rng) for _ in range(rng.choice([2, 2, 3]))]
+        order = [rng.choice(remotes) for _ in range(rng.choice([2, 3, 4]))]
+        if len(set(order)) == 1:
+            order[-1] = next(r for r in remotes if r != order[0]) if len(set(remotes)) > 1 else order[-1]
+        http = rng.random() < 0.35
+        toks = [_token(rng, rng.choice(remotes), home, weird=not http) for _ in range(rng.choice([1, 1, 2, 3]))]
+        if not any(_classify(t)[0] == "v2" for t in toks):
+            toks[0] = _v2(rng, rng.choice(remotes), home, weird=False)
+        look = {t: _lookup(rng, t, order[0], home) for t in toks}
+        spec = ";".join(f"{hxc(t)}:{look[t]}" for t in toks)
+        cases.append(("provhttpseq " if http else "provseq ") + ";".join(hxc(r) for r in order) + " " + spec)
     for _ in range(40 * scale):
         # the provider as wired by federation.New (real local backend, unreachable)
         remote = _cluster(rng)
@@ -493,6 +513,12 @@ def compare(case, impl, model):
         if unhxlist(iv["VIA"]) != unhxlist(mv["VIA"]):
             return False
         return unhx(iv["U"]) == "https://remote.example/arvados/v1/workflows/zrmte-7fd4e-000000000000000" and iv["M"] == f[2]
+    if op in ("provseq", "provhttpseq"):
+        ms, is_ = model.split("|"), impl.split("|")
+        if len(ms) != len(is_) or ms[-1] != is_[-1]:
+            return False
+        sub = "prov x x" if op == "provseq" else "provhttp x x"
+        return all(compare(sub, i, m) for m, i in zip(ms[:-1], is_[:-1]))
     if op in ("provhttp", "fednew"):
         if not model.startswith("ok "):
             return impl == model
@@ -726,6 +752,7 @@ def _oracle_legacy(case, impl):
     problems = []
     # form-body tokens count only when the body is actually read as a form by the method
     found = [p for p in placed if p[0] != "form-extra"]
+    passthrough = None
     if found:
         t = found[0][1]
         c = _classify(t)
@@ -742,6 +769,9 @@ def _oracle_legacy(case, impl):
                 want = _expect_one("v2/" + aca + "/" + t, remote, None)[1]
         else:
             want = t
+        if want is not None and want == t:
+            # not in Arvados format / unknown legacy token / 40-character secret (F9): as it is
+            passthrough = t
         if want is not None and auths != ["Bearer " + want]:
             problems.append(("header", f"Authorization is {auths!r}, expected ['Bearer {want}']"))
         try:
@@ -761,6 +791,11 @@ def _oracle_legacy(case, impl):
         # a body that is not declared as a form is payload, not a token placement
         body_is_form = _is_form(unhx(f[6]) if f[6] != "-" else "")
         head = dump.split("\n\n", 1)[0]
+        if passthrough is not None:
+            # the first credential is a string the property says to forward as it is (not in Arvados
+            # format / unknown legacy token / already-40 secret): its verbatim copy in the rebuilt header is not
+            # a leak, even if it happens to contain the secret of another credential of the request
+            head = head.replace("Authorization: Bearer " + passthrough, "Authorization: Bearer <passed through>")
         if body_is_form and (s in unhx(iv["B"]) or s in urllib.parse.unquote_plus(unhx(iv["B"]), encoding="latin-1")):
             problems.append(("body", "an unsalted user secret is in the forwarded form body"))
         elif any(s in v for k in unhxlist(iv["K"]) for v in _views(k)):
@@ -795,6 +830,17 @@ def oracle(case, impl):
             first, second = impl.split(" then ")
             if second not in (first, "err salted"):
                 return "salting a salted token produced a new token: " + second
+        return None
+    if op in ("provseq", "provhttpseq"):
+        parts = impl.split("|")
+        remotes = f[1].split(";")
+        if len(parts) != len(remotes) + 1:
+            return "driver could not observe the sequence: " + impl[:200]
+        sub = "prov" if op == "provseq" else "provhttp"
+        for n, (r, part) in enumerate(zip(remotes, parts)):
+            w = _oracle_prov(f"{sub} {r or '-'} {f[2]}", part)
+            if w:
+                return f"remote {n + 1} of the request ({unhx(r)!r}): {w}"
         return None
     if op in ("prov", "provhttp", "fednew"):
         return _oracle_prov(case, impl)
@@ -897,7 +943,7 @@ def nontrivial_key(case, impl):
         return case if f[2] != "-" else None
     if op in ("keepseq", "keepgetseq"):
         return case
-    if op in ("prov", "provhttp", "fednew"):
+    if op in ("prov", "provhttp", "fednew", "provseq", "provhttpseq"):
         return case if f[2] != "-" else None
     if op in ("legacy", "legacyw", "legacynf"):
         return case if _placed_tokens(f[3:8]) else None
@@ -927,7 +973,7 @@ def describe(cases, impl):
             for fld in (f[4], f[7]) if f[0] != "load" else (f[3], f[6]):
                 for ch in "=~^":
                     encodings[ch] += fld.count(ch)
-        if f[0] in ("prov", "provhttp") and f[2] != "-":
+        if f[0] in ("prov", "provhttp", "provseq", "provhttpseq") and f[2] != "-":
             for sp in f[2].split(";"):
                 lk = sp.split(":")[1]
                 lk = "found" if lk.startswith("f.") else lk
@@ -946,7 +992,7 @@ def describe(cases, impl):
             reuse = any(a[1] == b[1] and a[0] != b[0] for i, a in enumerate(sts) for b in sts[i + 1:])
             key = "sequences_same_token_other_remote" if reuse else "sequences_other"
             seqs[key] = seqs.get(key, 0) + 1
-        elif f[0] in ("prov", "provhttp", "fednew") and f[2] != "-":
+        elif f[0] in ("prov", "provhttp", "fednew", "provseq", "provhttpseq") and f[2] != "-":
             for s in f[2].split(";"):
                 k = tokkind(unhx(s.split(":")[0]))
                 kinds[k] = kinds.get(k, 0) + 1
